@@ -5,8 +5,11 @@ package main
 import (
 	"fmt"
 	"os"
+	"runtime"
 	"strings"
 	"time"
+
+	"verif/harness/internal/stuck"
 
 	"verif/harness/internal/common"
 )
@@ -213,8 +216,10 @@ func genMixed(seed uint64, fam string, pf profile) *Scenario {
 				ops = append(ops, Op{K: "refresh"})
 			case x < 88:
 				ops = append(ops, Op{K: "get", B: bi})
+			case x < 89:
+				ops = append(ops, Op{K: r.PickS("proxyread", "proxywrite"), B: bi, N: int64(r.Intn(20))})
 			case x < 90:
-				ops = append(ops, Op{K: "proxyread", B: bi, N: int64(r.Intn(20))})
+				ops = append(ops, Op{K: r.PickS("avgadjust", "ewmasetcur", "incrby", "enable", "barwaitdone"), B: bi, N: int64(r.Intn(3))})
 			case x < 93 && sc.Mode != "none":
 				ops = append(ops, Op{K: "waitcycles", N: int64(r.Range(1, 3))})
 			default:
@@ -478,6 +483,21 @@ func oracleFor(prop string, a *analysis) verdict {
 
 func runSched(job common.Job, em *emitter) {
 	watchdog := 30 * time.Second
+	g0 := runtime.NumGoroutine()
+	if job.Prop == "C16" && job.Replay == "" {
+		// creating, using and waiting on containers repeatedly must not accumulate goroutines
+		defer func() {
+			for i := 0; i < 400 && runtime.NumGoroutine() > g0; i++ {
+				time.Sleep(5 * time.Millisecond)
+			}
+			if n := runtime.NumGoroutine(); n > g0 {
+				res := common.Result{Idx: job.To - 1, Prop: "C16", Status: common.Violated, Evals: 1, NonTrivial: 1,
+					Key: "goroutine-growth", Msg: fmt.Sprintf("%d goroutines before the first of %d containers, %d two seconds after the last one returned from Wait", g0, job.To-job.From, n),
+					Witness: stuck.Dump()}
+				em.Res(res)
+			}
+		}()
+	}
 	if job.Part == "big" {
 		watchdog = 120 * time.Second
 	}
